@@ -173,6 +173,10 @@ def r04_2(prog, out):
                 out.holds(key, bi.loc(bb), "deadline = AckDeadline::new(Instant::now() + info.ack_deadline)")
             elif not s.reads(info_dl):
                 out.violation(key, bi.loc(bb), "the hand-out deadline does not depend on the subscription's ack deadline (%s)" % sorted(c.split("::")[-1] for c in s.calls)[:5])
+            elif "tokio::time::Instant::now" not in s.calls and any(
+                    r[0] == "param" and "Instant" in (prog.facts.body(r[1]).local_ty(r[2]) or "") for r in s.roots if r[0] == "param" and prog.facts.body(r[1]) is not None):
+                out.violation(key, bi.loc(bb), "the lease starts at an instant handed in from outside the actor's turn (a request field / parameter), not at the "
+                              "moment of hand-out: the time the request spent waiting (in the mailbox, in a blocked Pull) is taken off the ack deadline")
             else:
                 out.undecided(key, bi.loc(bb), "deadline expression not recognised")
     # AckDeadline::new only moves the instant forward
@@ -275,7 +279,11 @@ def r04_3(prog, out):
         out.undecided(key, bi.loc(start), "guard shape has no transfer function (%s)" % w.undecided_reason)
         return
     from props.c05 import duration_items
-    items = [it for p in paths if p.end == info_new[0] for it in duration_items(prog, bi, p, is_input)]
+    # only what reaches the constructor's deadline argument is part of the guard (the handler may parse other durations,
+    # a TTL, a retry backoff, on the same paths)
+    ctor = bi.call_at(info_new[0])
+    sink = [a.place.local for a in ctor.args if a.place is not None and "Duration" in (bi.body.operand_ty(a) or "")]
+    items = [it for p in paths if p.end == info_new[0] for it in duration_items(prog, bi, p, is_input, sink or None)]
     got = merge_partition(items)
     lo, hi = INT_RANGES["i32"]
     expected = [(lo, 10, "Some(from_secs 10)"), (11, hi, "Some(from_secs input)")]
